@@ -876,10 +876,16 @@ class WaveSpectrum(DatasetWrapper):
         for dim in self.dims_space_time:
             coords[dim] = self.dataset[dim].values
 
-        return xarray.DataArray(
-            data=inverse_intrinsic_dispersion_relation(
+        # The solver returns at least a 1d array; restore the shape of the
+        # space-time dimensions (which is () for a single spectrum).
+        peak_wavenumber = np.reshape(
+            inverse_intrinsic_dispersion_relation(
                 self.radian_frequency[index].values, self.depth.values
             ),
+            self.depth.values.shape,
+        )
+        return xarray.DataArray(
+            data=peak_wavenumber,
             dims=self.dims_space_time,
             coords=coords,
         )
